@@ -29,7 +29,12 @@
 #else
 #define C01_NO_UBSAN_NULL
 #endif
+/* node type: the C list head by default; the C++ igris::dlist_node (extracted to C, same two link fields) when a
+ * unit defines C01_NODE_T before including this header */
+#ifndef C01_NODE_T
 #include <igris/datastruct/dlist.h>
+#define C01_NODE_T struct dlist_head
+#endif
 
 #ifndef C01_K
 #define C01_K 9
@@ -37,7 +42,7 @@
 #define C01_NINV 4
 #define C01_NIDX (C01_K + C01_NINV)
 
-static struct dlist_head *c01_node[C01_NIDX];
+static C01_NODE_T *c01_node[C01_NIDX];
 /* the node objects: separate variables = separate exact-size objects with a known type (cheap for the
  * solver; an allocation per node costs 30x more); only the first C01_K are used.  With C01_ENTRY the
  * nodes are the `lnk` members of a concrete entry type (member at a non-zero offset, for the
@@ -45,21 +50,21 @@ static struct dlist_head *c01_node[C01_NIDX];
 #ifdef C01_ENTRY
 struct c01_entry {
     long key;
-    struct dlist_head lnk;
+    C01_NODE_T lnk;
     int tail;
 };
 #define C01_OBJ_T struct c01_entry
 #define C01_LNK(o) (&(o).lnk)
 #else
-#define C01_OBJ_T struct dlist_head
+#define C01_OBJ_T C01_NODE_T
 #define C01_LNK(o) (&(o))
 #endif
 static C01_OBJ_T c01_o0, c01_o1, c01_o2, c01_o3, c01_o4, c01_o5, c01_o6, c01_o7, c01_o8, c01_o9, c01_o10, c01_o11;
-static struct dlist_head *const c01_objs[12] = {C01_LNK(c01_o0), C01_LNK(c01_o1), C01_LNK(c01_o2),  C01_LNK(c01_o3),
+static C01_NODE_T *const c01_objs[12] = {C01_LNK(c01_o0), C01_LNK(c01_o1), C01_LNK(c01_o2),  C01_LNK(c01_o3),
                                                C01_LNK(c01_o4), C01_LNK(c01_o5), C01_LNK(c01_o6),  C01_LNK(c01_o7),
                                                C01_LNK(c01_o8), C01_LNK(c01_o9), C01_LNK(c01_o10), C01_LNK(c01_o11)};
 static uchar c01_nx[C01_K], c01_pv[C01_K];          /* pre-state link indices                         */
-static struct dlist_head *c01_onx[C01_K], *c01_opv[C01_K]; /* pre-state link values (frame)          */
+static C01_NODE_T *c01_onx[C01_K], *c01_opv[C01_K]; /* pre-state link values (frame)          */
 
 /* builds the pool from the witness arrays; the only assumption is the index range */
 #define C01_POOL(nxarr, pvarr)                                                                       \
@@ -90,14 +95,14 @@ static struct dlist_head *c01_onx[C01_K], *c01_opv[C01_K]; /* pre-state link val
 #define NOTNEIGH0(x, n) (!VALID0(n) || (n) == (x) || (c01_nx[n] != (x) && c01_pv[n] != (x)))
 
 /* post-state, read from the real objects */
-static int c01_idx(const struct dlist_head *p)
+static int c01_idx(const C01_NODE_T *p)
 {
     for (int i = 0; i < C01_K; i++)
         if (p == c01_node[i])
             return i;
     return C01_K;
 }
-static int c01_linked(struct dlist_head *n)
+static int c01_linked(C01_NODE_T *n)
 {
     /* the neighbours are dereferenced through their pool index, never through the stored pointer:
      * a stored pointer may be DLIST_POISONx (an integer address), and cbmc models a dereference that
@@ -107,7 +112,7 @@ static int c01_linked(struct dlist_head *n)
         return 0;
     return c01_node[a]->prev == n && c01_node[b]->next == n;
 }
-static int c01_self(struct dlist_head *n) { return n->next == n && n->prev == n; }
+static int c01_self(C01_NODE_T *n) { return n->next == n && n->prev == n; }
 
 /* frame: every link field outside the two masks has its pre-state value */
 #define BIT(i) (VALID0(i) ? 1u << (i) : 0u)
